@@ -685,25 +685,24 @@ zgsitrf(superlu_options_t *options, SuperMatrix *A, int relax, int panel_size,
 nomem_exit:
     /* A storage expansion failed (*info > ncol): L and U are not created;
        release everything this call holds. */
-    if ( Glu->MemModel == SYSTEM ) {
-	if ( fact == SamePattern_SameRowPerm ) {
-	    /* The arrays belong to the caller's L and U; expansions that
-	       succeeded before the failure may have moved them. */
-	    ((SCformat *)L->Store)->nzval = (doublecomplex *) Glu->lusup;
-	    ((SCformat *)L->Store)->rowind = Glu->lsub;
-	    ((NCformat *)U->Store)->nzval = (doublecomplex *) Glu->ucol;
-	    ((NCformat *)U->Store)->rowind = Glu->usub;
-	} else {
-	    SUPERLU_FREE (Glu->lusup);
-	    SUPERLU_FREE (Glu->ucol);
-	    SUPERLU_FREE (Glu->lsub);
-	    SUPERLU_FREE (Glu->usub);
-	    SUPERLU_FREE (Glu->xsup);
-	    SUPERLU_FREE (Glu->supno);
-	    SUPERLU_FREE (Glu->xlsub);
-	    SUPERLU_FREE (Glu->xlusup);
-	    SUPERLU_FREE (Glu->xusub);
-	}
+    if ( fact == SamePattern_SameRowPerm ) {
+	/* The arrays belong to the caller's L and U; expansions that
+	   succeeded before the failure may have moved them (in either
+	   memory model). */
+	((SCformat *)L->Store)->nzval = (doublecomplex *) Glu->lusup;
+	((SCformat *)L->Store)->rowind = Glu->lsub;
+	((NCformat *)U->Store)->nzval = (doublecomplex *) Glu->ucol;
+	((NCformat *)U->Store)->rowind = Glu->usub;
+    } else if ( Glu->MemModel == SYSTEM ) {
+	SUPERLU_FREE (Glu->lusup);
+	SUPERLU_FREE (Glu->ucol);
+	SUPERLU_FREE (Glu->lsub);
+	SUPERLU_FREE (Glu->usub);
+	SUPERLU_FREE (Glu->xsup);
+	SUPERLU_FREE (Glu->supno);
+	SUPERLU_FREE (Glu->xlsub);
+	SUPERLU_FREE (Glu->xlusup);
+	SUPERLU_FREE (Glu->xusub);
     }
     zLUWorkFree(iwork, zwork, Glu);
     SUPERLU_FREE (xplore);
